@@ -15,6 +15,7 @@
 package log
 
 import (
+	"errors"
 	"fmt"
 	"github.com/echovault/sugardb/internal"
 	"github.com/echovault/sugardb/internal/clock"
@@ -187,9 +188,19 @@ func (store *Store) Restore() error {
 
 	r := resp.NewReader(store.rw)
 	database := 0
+	// Length of the part of the log that is made up of complete records.
+	var restored int64
 
 	for {
 		value, n, err := r.ReadValue()
+		if errors.Is(err, io.ErrUnexpectedEOF) {
+			// The last record is incomplete: the process stopped while appending it.
+			// Drop it, so that the records appended from now on start on a record boundary.
+			if err = store.rw.Truncate(restored); err != nil {
+				return fmt.Errorf("restore aof: drop incomplete record: %v", err)
+			}
+			break
+		}
 		if err != nil && err != io.EOF {
 			return err
 		}
@@ -197,6 +208,7 @@ func (store *Store) Restore() error {
 			// Break out when there are no more bytes to read.
 			break
 		}
+		restored += int64(n)
 
 		command, err := value.MarshalRESP()
 		if err != nil {
